@@ -6,6 +6,19 @@ from harness.common import fhex
 
 PID = "C20"
 COQ_TARGET = "C20"
+
+TRUSTED = ["translator tools/tr_queue.py (engine tools/tr_cython.py, Python ast after four Cython rewrites, fail-closed): regenerates coq/Gen/QueueGen.v (ArrayDelayQueue.set_current_time, add_reaction, "
+           "get_next_queue_time, get_next_reactions, advance_time) from bioscrape/simulator.pyx + simulator.pxd on every run; Proofs/TieQueue.v proves the generated methods simulate the hand model "
+           "(any arithmetic, any history)", "hand model coq/Model/Queue.v: constructor, copy, clear_copy, binomial_partition tied by correspondence only",
+           "C unsigned / int wrap-around is not modelled: indices are unbounded (the translated expressions stay far below 2^31 for any queue that fits in memory)"]
+
+def translate():
+    import importlib.util, os
+    from harness.common import Broken
+    p = os.path.join(os.path.dirname(os.path.dirname(os.path.dirname(os.path.abspath(__file__)))), "tools", "tr_queue.py")
+    spec = importlib.util.spec_from_file_location("tr_queue", p); m = importlib.util.module_from_spec(spec); spec.loader.exec_module(m)
+    try: return m.run()
+    except m.Refuse as e: raise Broken("tr_queue refused: %s" % e, str(e))
 DTS = [Fr(1, 8), Fr(1, 4), Fr(1, 2), Fr(1), Fr(2)]
 FRACS = [Fr(0), Fr(1, 4), Fr(-1, 4), Fr(3, 8), Fr(-3, 8), Fr(1, 8), Fr(-1, 8), Fr(7, 16), Fr(-7, 16)]
 
